@@ -72,7 +72,16 @@ struct ChildOutcome {
     std::string detail;
 };
 
+ChildOutcome decode_in_child_once(const std::string& s);
+// (a child killed by the CPU limit is re-tried twice: a decoder that hangs does so every time, an accident of the forked
+//  sanitizer runtime does not)
 ChildOutcome decode_in_child(const std::string& s) {
+    ChildOutcome o = decode_in_child_once(s);
+    for (int attempt = 0; attempt < 2 && o.kind == ChildOutcome::Died && (o.detail.rfind("killed by signal 24", 0) == 0 || o.detail.rfind("killed by signal 9", 0) == 0); ++attempt)
+        o = decode_in_child_once(s);
+    return o;
+}
+ChildOutcome decode_in_child_once(const std::string& s) {
     ChildOutcome out;
     int fds[2];
     if (::pipe(fds) != 0) return out;
